@@ -45,6 +45,7 @@ fn preimage(tx: &Transaction, op: &Op, spent: &[TxOut], genesis: BlockHash) -> S
                 let t = schnorr(t).unwrap();
                 let r = match &pv {
                     Pv::All => c.taproot_encode_signing_data_to(&mut w, i, &Prevouts::All(spent), annex, leaf, t, genesis),
+                    Pv::AllN(n) => { let v: Vec<TxOut> = spent.iter().chain(spent.iter()).take(*n).cloned().collect(); c.taproot_encode_signing_data_to(&mut w, i, &Prevouts::All(&v), annex, leaf, t, genesis) }
                     Pv::One(j) => c.taproot_encode_signing_data_to(&mut w, i, &Prevouts::One(*j, spent[*j].clone()), annex, leaf, t, genesis),
                     Pv::OneX(j, o) => c.taproot_encode_signing_data_to(&mut w, i, &Prevouts::One(*j, o.clone()), annex, leaf, t, genesis),
                 };
@@ -64,7 +65,7 @@ fn spec_defined(tx: &Transaction, op: &Op, spent: &[TxOut]) -> Option<bool> {
         Op::Taproot(..) | Op::Key(..) | Op::ScriptSpend(..) | Op::ScriptPathSpend(..) => {
             let (i, t, pv, annex) = match op { Op::ScriptPathSpend(i, t, p, _, _, _) => (*i, *t, p, None), Op::Taproot(i, t, p, a, _) => (*i, *t, p, a.clone()), Op::Key(i, t, p) => (*i, *t, p, None), Op::ScriptSpend(i, t, p, _) => (*i, *t, p, None), _ => unreachable!() };
             let ty = schnorr(t)?;
-            match pv { Pv::One(j) | Pv::OneX(j, _) => { if !(*j == i && schnorr_acp(ty)) { return None; } } Pv::All => {} }
+            match pv { Pv::One(j) | Pv::OneX(j, _) => { if !(*j == i && schnorr_acp(ty)) { return None; } } Pv::All => {} Pv::AllN(_) => { return None; } }
             let annex_ok = match &annex { None => true, Some(a) => a.first() == Some(&0x50) };
             let single = ty == SchnorrSighashType::Single || ty == SchnorrSighashType::SinglePlusAnyoneCanPay;
             Some(ty != SchnorrSighashType::Reserved && spent.len() == nin && annex_ok && i < nin && (!single || i < tx.output.len()))
